@@ -5,10 +5,10 @@
                                       one edit once the copies exist (isolation)
   <PAIR>_qe.cfg  quick,    edits:     public setters from both sides around link / copy / re-open
   <PAIR>_ts.cfg  thorough, structure: boolean masks and extents, second mask, other workspace + extent, isolation edits
-                                      through channels and timing_mark (DC / MT: depth 6, three copies, two re-opens)
+                                      through channels and timing_mark (DC / MT: depth 5, two re-opens)
   <PAIR>_te.cfg  thorough, edits:     every setter of the pair, rejected values, depth 4, cross-workspace copies
   (the thorough tier also runs the two quick configurations)
-  <PAIR>_asbuilt.cfg  negative control: Deviations = KnownDevs, TLC must report a violated invariant
+  <PAIR>_dev_<Deviation>.cfg  negative controls: exactly one named deviation on, TLC must report a violated property
 Run:  cd /verif/spec/survey && /venv/bin/python gen_cfgs.py
 """
 PAIRS = ["ATEM", "AFEM", "MLTEM", "MLFEM", "LLTEM", "LLFEM", "TIP", "TIP1", "DC", "MT"]
@@ -87,16 +87,34 @@ def main():
         files = {
             "qs": cfg(pair, QS_DEPTH[pair], 2, 1, 1, ["channels"], q_modes, ["lo"], 1, "copied"),
             "qe": cfg(pair, 3, 1, 2, 1, QUICK_OPS[pair], ["plain-same"], ["lo"], 2, "always"),
-            "ts": (cfg(pair, 6, 3, 1, 2, ["channels"], t_modes, ["lo", "mid"], 1, "copied") if pair in ("DC", "MT")
-                   else cfg(pair, 4, 2, 1, 1, ["channels", "timing_mark"], t_modes, ["lo", "mid"], 1, "copied")),
+            "ts": cfg(pair, 5 if pair in ("DC", "MT") else 4, 2, 1, 2 if pair in ("DC", "MT") else 1,
+                      ["channels"] if pair == "MLTEM" else ["channels", "timing_mark"],
+                      t_modes, ["lo", "mid"], 1, "copied"),
             "te": cfg(pair, 4, 1, 2, 1, ALL_OPS, ["plain-other"], ["lo"], 2, "always", bad=True),
-            "asbuilt": cfg(pair, 3, 1, 2, 1, QUICK_OPS[pair], ["plain-same", "extent-same"], ["lo"], 2, "always", devs=KNOWN,
-                           export=False),
         }
         for name, text in files.items():
             with open(f"{pair}_{name}.cfg", "w", encoding="ascii") as fh:
                 fh.write(text)
 
 
+# negative controls: exactly one named deviation switched on, TLC must report one of the listed properties
+NEGATIVE = [
+    ("ATEM", "WaveformAliased", ["waveform", "timing_mark"]),            # WriteThrough / EditIsLocal
+    ("LLFEM", "LinkFromTxDropsTxId", ["channels"]),                      # TxIdKept
+    ("MLFEM", "InputTypeSetterMLFEM", ["input_type"]),                   # ValidEditsAccepted
+    ("TIP", "UnitSetterTIP", ["unit"]),                                  # ValidEditsAccepted
+    ("MLTEM", "LoopRadiusNoneHalfApplied", ["loop_radius"]),             # WriteThrough / RefusedIsNoop
+    ("TIP1", "TipperSingleBaseMaskedCopy", ["channels"]),                # RefusedIsNoop / CopyCopiesPartner
+]
+
+
+def negatives():
+    for pair, dev, ops in NEGATIVE:
+        text = cfg(pair, 3, 1, 2, 1, ops, ["plain-same", "extent-same"], ["lo"], 2, "always", devs=[dev], export=False)
+        with open(f"{pair}_dev_{dev}.cfg", "w", encoding="ascii") as fh:
+            fh.write(text)
+
+
 if __name__ == "__main__":
+    negatives()
     main()
